@@ -326,7 +326,7 @@ def _path_job_inner(prefix):
     _CURHEAP = path.heap
     for i, ob in enumerate(path.obligations):
         rec = {"name": ob.name, "line": ob.line, "kind": ob.kind, "note": ob.note,
-               "effects": [e[0] for e in path.effects], "outcome": info["outcome"]}
+               "effects": [e[0] for e in path.effects if e[0] != "Fs"], "outcome": info["outcome"]}
         res = _solve_one(i)
         rec.update(res)
         if res["status"] == "refuted":
